@@ -2,6 +2,7 @@
 From Servitor Require Import Base Unicode Ansi.
 From Servitor.Facts Require Import CenterFacts.
 Local Open Scope Z_scope.
+From Servitor.Facts Require Import HtmlFacts FrameFacts.
 
 (* for every prefix / centred / suffix text and every height >= 1 the result has exactly h lines *)
 Theorem center_height : forall (p c s : text) (h : Z), 1 <= h -> height (center_vertically p c s h) = h.
@@ -78,3 +79,29 @@ Print Assumptions view_height.
 (* Non-vacuity, and the geometry the pinned tree got wrong: exactly one spare row *)
 Example c16_example : height (center_vertically [97;10;98] [99] [100] 2)%N = 2.
 Proof. vm_compute. reflexivity. Qed.
+
+(* EVERY frame emitted along EVERY history of keys, resizes and background completions from the start states (C07: start_open_ok, start_feed_ok, subcommand_start) was computed without a panic and has exactly as many lines as the terminal had rows at that moment *)
+Theorem every_frame_from :
+  forall (I C : Type) (preload : Z) (parents : I -> nat -> list I * option I)
+  (children : I -> option C) (harvest : C -> nat -> nat -> list I * option C * nat)
+  (select_link : I -> Z -> option text) (creators recipients : I -> option (list I))
+  (actor_of : I -> option I) (media pfp banner : I -> option text)
+  (open_link open_user : text -> Ui.opened I C) (feed_named : text -> option C)
+  (hook_fails : text -> option text) (msg_unknown_feed msg_bad_command : text -> text)
+  (col : Style.colors) (full_text preview_text : I -> Z -> text)
+  (s0 s : Ui.ui I C) (sh : Ui.shown I C),
+  UiFacts.ui_inv I C s0 ->
+  frames_inv I C s0 ->
+  reachable_from I C preload parents children harvest select_link creators recipients actor_of
+  media pfp banner open_link open_user feed_named hook_fails msg_unknown_feed
+  msg_bad_command s0 s ->
+  In sh (Ui.u_frames I C s) ->
+  StyleFacts.colors_ok col ->
+  0 <= Ui.u_width I C (ui_of_shown I C sh) ->
+  exists t : text,
+  Ui.view I C preload col full_text preview_text (ui_of_shown I C sh) = Ok t /\
+  (2 <= Ui.u_height I C (ui_of_shown I C sh) ->
+  height t = Ui.u_height I C (ui_of_shown I C sh)).
+Proof. exact every_frame_from_fact. Qed.
+Print Assumptions every_frame_from.
+
